@@ -249,3 +249,75 @@ Check C01_lzma_decode_exact_all_options :
     s_pos (i_src w') = nlen (hdr_bytes fp dict_field field ++ payload) /\
     s_pos (i_src w') = header_len (o_unpacked o) + nlen payload /\ s_rest (i_src w') = trail.
 Print Assumptions C01_lzma_decode_exact_all_options.
+
+From LZ Require Import Model.Stream Format.RefEnc Proofs.LzmaExactOpts Proofs.StreamSimLoop Proofs.StreamSimData Proofs.StreamExact.
+
+(* exact decoding through the STREAMING decoder (C01 x C05): a well-formed file, any header option, fed in EVERY division into write calls, then finish: Done, the sink holds exactly the defined bytes, flushed once   [proved as stream_decodes_wellformed_exactly in Proofs/StreamExact.v] *)
+Theorem C01_stream_decodes_wellformed_exactly :
+  forall (fp : fprops) (dict_field : N) (field : list N) (prog : list sym) (payload out : list N) 
+    (delta : N) (trail : list N) (ief : ienc) (o : options) (k : snk) (pieces : list (list N)),
+  f_lc fp <= 8 ->
+  f_lp fp <= 4 ->
+  f_pb fp <= 4 ->
+  dict_field < 2 ^ 32 ->
+  enc_payload_gen false fp (Some (N.max dict_field 4096)) prog delta = Some (payload, out) ->
+  LzmaExact.final_ienc fp (Some (N.max dict_field 4096)) prog = Some ief ->
+  nlen field = HeaderRules.size_field_len (o_unpacked o) ->
+  memlimit_ok (o_memlimit o) (N.max dict_field 4096) ->
+  stream_mode (HeaderRules.size_in_effect (o_unpacked o) (le_num field)) prog out delta trail ief ->
+  k_wfail k = None ->
+  k_ffail k = false ->
+  o_allow_incomplete o = false ->
+  Forall (fun b : N => b < 256) field ->
+  Forall (fun b : N => b < 256) trail ->
+  nlen ((hdr_bytes fp dict_field field ++ payload) ++ trail) < 140737488355328 ->
+  nlen prog + 1 <= 4611686018427387904 ->
+  concat pieces = (hdr_bytes fp dict_field field ++ payload) ++ trail ->
+  exists k' : snk,
+    drive (stream_new o k) pieces = (Done tt, k') /\
+    snk_bytes k' = snk_bytes k ++ out /\ k_flushes k' = k_flushes k + 1.
+Proof. exact (@stream_decodes_wellformed_exactly). Qed.
+Check C01_stream_decodes_wellformed_exactly :
+  forall (fp : fprops) (dict_field : N) (field : list N) (prog : list sym) (payload out : list N) 
+    (delta : N) (trail : list N) (ief : ienc) (o : options) (k : snk) (pieces : list (list N)),
+  f_lc fp <= 8 ->
+  f_lp fp <= 4 ->
+  f_pb fp <= 4 ->
+  dict_field < 2 ^ 32 ->
+  enc_payload_gen false fp (Some (N.max dict_field 4096)) prog delta = Some (payload, out) ->
+  LzmaExact.final_ienc fp (Some (N.max dict_field 4096)) prog = Some ief ->
+  nlen field = HeaderRules.size_field_len (o_unpacked o) ->
+  memlimit_ok (o_memlimit o) (N.max dict_field 4096) ->
+  stream_mode (HeaderRules.size_in_effect (o_unpacked o) (le_num field)) prog out delta trail ief ->
+  k_wfail k = None ->
+  k_ffail k = false ->
+  o_allow_incomplete o = false ->
+  Forall (fun b : N => b < 256) field ->
+  Forall (fun b : N => b < 256) trail ->
+  nlen ((hdr_bytes fp dict_field field ++ payload) ++ trail) < 140737488355328 ->
+  nlen prog + 1 <= 4611686018427387904 ->
+  concat pieces = (hdr_bytes fp dict_field field ++ payload) ++ trail ->
+  exists k' : snk,
+    drive (stream_new o k) pieces = (Done tt, k') /\
+    snk_bytes k' = snk_bytes k ++ out /\ k_flushes k' = k_flushes k + 1.
+Print Assumptions C01_stream_decodes_wellformed_exactly.
+
+(* every byte of a reference-encoded file is < 256   [proved as enc_lzma_bytes in Proofs/StreamExact.v] *)
+Theorem C01_reference_encoding_is_a_byte_string :
+  forall (lenient : bool) (fp : fprops) (dict_field size_field : N) (prog : list sym) 
+    (delta : N) (file out : list N),
+  f_lc fp <= 8 ->
+  f_lp fp <= 4 ->
+  f_pb fp <= 4 ->
+  enc_lzma_gen lenient fp dict_field size_field prog delta = Some (file, out) ->
+  Forall (fun b : N => b < 256) file.
+Proof. exact (@enc_lzma_bytes). Qed.
+Check C01_reference_encoding_is_a_byte_string :
+  forall (lenient : bool) (fp : fprops) (dict_field size_field : N) (prog : list sym) 
+    (delta : N) (file out : list N),
+  f_lc fp <= 8 ->
+  f_lp fp <= 4 ->
+  f_pb fp <= 4 ->
+  enc_lzma_gen lenient fp dict_field size_field prog delta = Some (file, out) ->
+  Forall (fun b : N => b < 256) file.
+Print Assumptions C01_reference_encoding_is_a_byte_string.
